@@ -8,6 +8,8 @@ def obligations():
     from props import c04_pkg
     obs += c04_pkg.obligations()
     obs += string_nopanic_obligations()
+    from props import pat_ob
+    obs += pat_ob.obligations_c04()
     obs += selftest_ob.parser_obligations('O4.0')
     try:
         from props import e1_obs
